@@ -155,7 +155,7 @@ impl Property for C01 {
     }
 
     fn quota(tier: Tier) -> u64 {
-        tier.pick(120_000, 4_000_000)
+        tier.pick(1_200_000, 24_000_000)
     }
 
     fn rule() -> String {
